@@ -5,7 +5,7 @@ import PoxModel.Proofs.PacketChain
 valid length fields and RFC 1071 checksums (all by the C14 header theorems).  Core only.
 -/
 namespace Pox.Actions
-open Pox Pox.Packet Pox.Checksum Pox.Layout Pox.Actions.Spec
+open Pox Pox.Packet Pox.Checksum Pox.PktLayout Pox.Actions.Spec
 
 /-- chains `pack()` can serialise: every field in its wire range, every IP datagram below 64 KiB.  (C14's `Good` minus the
 demultiplexing conditions, which only matter for re-parsing: a rewritten port may well be 53.) -/
